@@ -427,7 +427,11 @@ def main_check(mod, argv=None):
 
 
 def write_evidence(mod, prop, tier, seed, total, wall, n_viol, known_seen, tree_hash):
-    os.makedirs(os.path.join(VERIF, 'evidence'), exist_ok=True)
+    # evidence/ describes runs against /repo; runs against another tree (VERIF_REPO: seeded changes in a scratch worktree)
+    # leave it alone and write next to the build cache instead
+    other_tree = os.path.realpath(os.environ.get('VERIF_REPO', '/repo')) != '/repo'
+    ev_dir = os.path.join(VERIF, '.cache', 'tmp', 'evidence-other-tree') if other_tree else os.path.join(VERIF, 'evidence')
+    os.makedirs(ev_dir, exist_ok=True)
     cov = {
         'evaluations': int(total.counters.get('judged', 0)),
         'distinct_nontrivial': len(total.distinct),
@@ -455,6 +459,6 @@ def write_evidence(mod, prop, tier, seed, total, wall, n_viol, known_seen, tree_
         'wall_s': round(wall, 2),
         'violations': n_viol,
     }
-    with open(os.path.join(VERIF, 'evidence', f'{prop}.json'), 'w') as f:
+    with open(os.path.join(ev_dir, f'{prop}.json'), 'w') as f:
         json.dump(ev, f, ensure_ascii=False, indent=1)
         f.write('\n')
